@@ -237,6 +237,7 @@ func runC11(c *Ctx, r *Report) {
 	c11ownership(c, r)
 	c11resets(c, r)
 	c11separators(c, r)
+	c11compare(c, r)
 }
 
 func c11tables(c *Ctx, r *Report, interp *ssa.Function) {
@@ -1119,4 +1120,109 @@ func c11separators(c *Ctx, r *Report) {
 			r.ok(key, parse.Pos(), parse, fmt.Sprintf("every path to the cut has searched for %q", sep))
 		}
 	}
+}
+
+// c11compare: R12 — the state comparator and the "has any effect" test look at every field.
+func c11compare(c *Ctx, r *Report) {
+	l := c.L
+	r.rule("C11-R12", "E (comparator completeness over the struct's fields)", "P1",
+		"ansiState.equals compares every field of ansiState between its two operands, and ansiState.colored tests every field: a new span is opened (and the carried state updated) whenever any component of the state changes",
+		"a change that only touches the forgotten component (line background, hyperlink) opens no span and is not carried over")
+	tState := l.Named("fzf", "ansiState")
+	eq := l.Fn("fzf", "(*ansiState).equals")
+	col := l.Fn("fzf", "(*ansiState).colored")
+	if tState == nil || eq == nil || col == nil {
+		r.unest("anchors", token.NoPos, nil, "anchors ansiState / equals / colored", "cannot resolve")
+		return
+	}
+	st := tState.Underlying().(*types.Struct)
+	// equals: comparisons s.F == t.F
+	cmp := map[string]bool{}
+	eachInstr(eq, func(in ssa.Instruction) {
+		b, ok := in.(*ssa.BinOp)
+		if !ok || (b.Op != token.EQL && b.Op != token.NEQ) {
+			return
+		}
+		f1, b1 := loadOfField(b.X)
+		f2, b2 := loadOfField(b.Y)
+		if f1 != nil && f1 == f2 && b1 != b2 {
+			cmp[f1.Name()] = true
+		}
+	})
+	tested := map[string]bool{}
+	eachInstr(col, func(in ssa.Instruction) {
+		b, ok := in.(*ssa.BinOp)
+		if !ok {
+			return
+		}
+		if f, _ := loadOfField(b.X); f != nil {
+			tested[f.Name()] = true
+		}
+		if f, _ := loadOfField(b.Y); f != nil {
+			tested[f.Name()] = true
+		}
+	})
+	for i := 0; i < st.NumFields(); i++ {
+		f := st.Field(i).Name()
+		r.check(cmp[f], "fzf.ansiState.equals:compares "+f, eq.Pos(), eq, "s."+f+" is compared with t."+f, "the comparator ignores "+f)
+		r.check(tested[f], "fzf.ansiState.colored:tests "+f, col.Pos(), col, "colored() looks at "+f, "colored() ignores "+f)
+	}
+	r.floor("fields of ansiState", st.NumFields(), 5)
+
+	r.rule("C11-R13", "A (no shortcut around the scanner)", "P1",
+		"no call of extractColor is guarded by a byte/substring search of the text it is about to scan (IndexByte, Contains, ...): which bytes start a sequence is the scanner's business (ESC, BS, SO, SI), a caller-side pre-test that knows fewer of them leaves the others in the text",
+		"lines with backspace overstrikes or shift-in/out but no ESC keep their control characters in the printed / searchable text")
+	ec := l.Fn("fzf", "extractColor")
+	if ec == nil {
+		r.unest("anchors", token.NoPos, nil, "anchor extractColor", "cannot resolve")
+		return
+	}
+	searchNames := map[string]bool{"bytes.IndexByte": true, "bytes.Contains": true, "bytes.ContainsRune": true, "bytes.ContainsAny": true, "bytes.IndexAny": true, "bytes.Index": true, "bytes.IndexRune": true,
+		"strings.IndexByte": true, "strings.Contains": true, "strings.ContainsRune": true, "strings.ContainsAny": true, "strings.IndexAny": true, "strings.Index": true, "strings.IndexRune": true}
+	n := 0
+	for _, fn := range l.AllFuncs() {
+		if fn.Pkg != l.pkg("fzf") {
+			continue
+		}
+		var pc *PathConds
+		eachInstr(fn, func(in ssa.Instruction) {
+			call, ok := in.(*ssa.Call)
+			if !ok || call.Common().StaticCallee() != ec {
+				return
+			}
+			n++
+			if pc == nil {
+				pc = pathConds(fn)
+			}
+			// data the text argument is made of
+			textSrc := backwardSlice(call.Call.Args[0], func(*ssa.CallCommon) bool { return true }, nil)
+			var bad ssa.Value
+			for d := in.Block(); d != nil; d = d.Idom() {
+				for _, dj := range pc.At(d) {
+					for _, lt := range dj {
+						for v := range backwardSlice(lt.Atom, func(*ssa.CallCommon) bool { return true }, nil) {
+							c2, ok := v.(*ssa.Call)
+							if !ok || !searchNames[calleeName(c2.Common())] {
+								continue
+							}
+							for w := range backwardSlice(c2.Call.Args[0], func(*ssa.CallCommon) bool { return true }, nil) {
+								if _, isConst := w.(*ssa.Const); !isConst && textSrc[w] {
+									if _, isParam := w.(*ssa.Parameter); isParam || true {
+										bad = c2
+									}
+								}
+							}
+						}
+					}
+				}
+			}
+			key := fmt.Sprintf("%s:extractColor #%d is not behind a caller-side search", relName(fn), n)
+			if bad != nil {
+				r.bad(key, call.Pos(), fn, "the scanner sees every line", "the call is reached only after "+describe(bad)+" at "+l.pos(bad.Pos())+": lines without that byte are not scanned")
+			} else {
+				r.ok(key, call.Pos(), fn, "no search of the text decides whether the scanner runs")
+			}
+		})
+	}
+	r.floor("call sites of extractColor", n, 6)
 }
